@@ -1484,6 +1484,9 @@ func (c *codegen) Visit(node ast.Node) ast.Visitor {
 		case token.CONTINUE:
 			post := c.getLabelOffset(labelPost, label)
 			emit.Jmp(c.prog.BinWriter, opcode.JMPL, post)
+		case token.GOTO:
+			c.prog.Err = errors.New("goto is not supported")
+			return nil
 		default:
 			return nil
 		}
